@@ -10,7 +10,10 @@ for name in sorted(os.listdir("/verif/seeded")):
     note = m.get("note", "") or ""
     missed = "initially MISSED" in note or "MISSED" in note
     files = ", ".join(os.path.basename(f) for f in m.get("files", []))
-    rows.append((m["property"], name, files, m.get("detected_by", ""), ("yes — " + note.split("MISSED:")[-1].strip()) if missed else "no"))
+    last = ("yes — " + note.split("MISSED:")[-1].strip()) if missed else "no"
+    if m.get("superseded"):
+        last += " [superseded by a later repair of /repo: " + m["superseded"].split(":")[0] + "; no longer in the regression]"
+    rows.append((m["property"], name, files, m.get("detected_by", ""), last))
 print("| Property | Seeded change (`seeded/<name>`) | File(s) | Caught by | Missed at first? What was strengthened |")
 print("|---|---|---|---|---|")
 for r in rows:
